@@ -77,7 +77,7 @@ DUP_SAFE_OPS = ("sort", "sort_radix", "remove_list", "remove_obs", "remove_first
 # produced by the simplifier): the feature computations of C17, and everything that only moves Obs around
 LOOSE_OK_OPS = DUP_SAFE_OPS + ("abs_curv", "speed", "speed_direct", "ds", "remove")
 C17_OPS = ("abs_curv", "speed", "speed_direct", "ds", "transform", "fork_noise", "add_seconds", "speed_smoothed",
-           "coll_speed", "idle")
+           "coll_speed", "idle", "profile", "find_stops")
 
 
 def feq(a, b):
@@ -633,6 +633,13 @@ class TrackWorld(World):
                                   "increment_time", "set_order", "loop", "loop", "idle_begin", "idle_begin", "idle_end"]),
                 "delta": r.choice([1, 2, 0.5, 7]), "idle": r.choice([0.5, 5.0, 50.0]), "alias": r.random() < 0.5, "n": r.choice([2, 3, 5, 9]), "to": r.randrange(self.cfg["sessions"]),
                 "tag0": self.rtagc - 300}
+
+    def _g_profile(self, r, m):
+        return {"template": r.choice(["SPATIAL_SPEED_PROFIL", "TEMPORAL_SPEED_PROFIL", "SPATIAL_ALTI_PROFIL"]),
+                "refused": r.random() < 0.4}
+
+    def _g_find_stops(self, r, m):
+        return {"spatial": r.choice([1.0, 5.0, 20.0]), "temporal": r.choice([1, 3, 60])}
 
     def _g_idle(self, r, m):
         st = self._g_via(r, m)
@@ -2498,6 +2505,70 @@ class TrackWorld(World):
         self.derived.pop(dest, None)
         self.probe("track_went_through_another_subsystem")
         self._check_all(fprop, "%s (adopted)" % k)
+
+    def _adopt_side_features(self, t, m, where):
+        """Other parts of the library (profile plots, stop detection) compute the abscissas, the speeds
+        and features of their own on the caller's track, by design: what is new is taken over, abscissas
+        and speeds are held to their definitions, everything that was there must be unchanged."""
+        for name in t.getListAnalyticalFeatures():
+            if name in m["names"] or name.startswith("#"):
+                continue
+            got = list(t.getAnalyticalFeature(name))
+            if len(got) != len(m["obs"]):
+                self.fail("C17", "table.width", "%s: new feature %r has %d values for %d observations"
+                          % (where, name, len(got), len(m["obs"])), len(m["obs"]), len(got))
+                return False
+            self._setcol(m, name, got)
+            m["fresh"][name] = m["geo"]
+            definition = {"abs_curv": self._def_abs_curv, "speed": self._def_speed}.get(name)
+            if definition is not None and self._sorted(m):
+                want = definition(m)
+                if any(not close(a, b) for a, b in zip(got, want)):
+                    self.fail("C17", name + ".definition", "%s: the %s it left on the track differs from the "
+                              "geometric definition" % (where, name), jsonable(want), jsonable(got))
+                    return False
+        return True
+
+    def op_profile(self, st):
+        """Track.plotProfil (matplotlib, off-screen): a read-only user of abscissas and speeds.  A request
+        naming a feature the track does not have is refused; either way the track keeps what it had."""
+        t, m = self._sess(st)
+        if len(m["obs"]) < 2 or m.get("dup_obs") or m.get("loose_rows") or "ds" in m["names"] or not self._sorted(m):
+            raise Skip()
+        import matplotlib.pyplot as plt
+        afs = ["zz_no_such_feature"] if st.get("refused") else []
+        try:
+            _, exc = self.call(t.plotProfil, st["template"], afs)
+        finally:
+            plt.close("all")
+        if st.get("refused"):
+            self.stats["fault_fired:rejected_request"] += 1
+            if exc is None:
+                raise Skip()
+            self.probe("profile_plot_refused")
+        elif exc is not None:
+            if isinstance(exc, Exception):
+                raise Skip()            # (what the plotting layer accepts is not this world's subject)
+            return self._unexpected("C17", exc, "plotProfil")
+        if self._adopt_side_features(t, m, "plotProfil(%s)" % st["template"]):
+            self._check_all("C17", "plotProfil (the track keeps its positions, timestamps and features)")
+        return "rejected" if st.get("refused") else "ok"
+
+    def op_find_stops(self, st):
+        """Stop detection with the acceleration criterion works on the caller's track (it computes the
+        speeds there); whatever it detects, speeds read afterwards follow the definition."""
+        from tracklib.algo.segmentation import findStops, MODE_STOPS_ACC
+        t, m = self._sess(st)
+        if len(m["obs"]) < 2 or m.get("dup_obs") or m.get("loose_rows") or "ds" in m["names"] or not self._sorted(m):
+            raise Skip()
+        if any(nm in m["names"] for nm in ("acceleration", "radius", "duration")):
+            raise Skip()
+        _, exc = self.call(findStops, t, st["spatial"], st["temporal"], MODE_STOPS_ACC, False)
+        if exc is not None and not isinstance(exc, Exception):
+            return self._unexpected("C17", exc, "findStops")
+        self.probe("stop_detection_on_the_track")
+        if self._adopt_side_features(t, m, "findStops"):
+            self._check_all("C17", "findStops (positions, timestamps and earlier features must be unchanged)")
 
     def op_idle(self, st):
         """track >= d / track <= d (idle ends removed): the track that comes out becomes a session of
